@@ -135,11 +135,11 @@ class Sys:
         self.by = None
         self.ms = R.AttrModel(self.cat, self.k, self.decl["default"], n0)
         self.md = self.ms.copy()
-        self.create(rng, first=True)
+        self.create(rng)
         if self.shared:
             ok, self.by = self.call("align", "create_bystander", lambda: self.cd.create_attribute("by", int, 2, dense=True))
 
-    def create(self, rng, first=False):
+    def create(self, rng):
         d = self.decl
         typ = ALIAS[self.cat] if (d.get("type_alias") and self.cat in ALIAS) else PYTYPE[self.cat]
         kw = {}
@@ -161,6 +161,22 @@ class Sys:
         self.ms.clear()
         self.md.clear()
         self.log.append("create %s x%d default=%s on %d elements" % (self.cat, self.k, R.show(d["default"]) if d["default"] is not None else "implicit", n))
+
+    def probe_foreign_default(self, rng):
+        """A default value of another value type: both storages must take the same decision at creation."""
+        other = rng.choice([c for c in R.CATS if c != self.cat])
+        d = R.gen_scalar(rng, other, numpy_ok=False)
+        if not R.comps_in_bounds([d]):
+            return
+        res = []
+        for c, dense, nm in ((self.cs, False, "tmp_s"), (self.cd, True, "tmp_d")):
+            ok, e = self.call("lattice", "create_default",
+                              lambda: c.create_attribute(nm, PYTYPE[self.cat], self.k, dense=dense, default_value=d), expect=(Exception,))
+            res.append("accept" if ok else "reject")
+            self.call("lattice", "create_default", c.delete_attribute, nm)
+        self.check(res[0] == res[1], "lattice", "create_default", "storages_disagree_on_default_of_another_type",
+                   "create_attribute with a default of another value type is accepted by one storage and rejected by the other",
+                   default=repr(d), sparse=res[0], dense=res[1])
 
     # ---- values ------------------------------------------------------------------------------------
     def mkvalue(self, shape, comps, how="list"):
@@ -189,7 +205,8 @@ class Sys:
 
     def check_answers(self, monitor, op, skip=None, focus=None, old_n=None):
         """Every index of the container, both storages, against the model.  Observations are counted under
-        (monitor, op); a disagreement is named after what the monitor was watching, not after the step."""
+        (monitor, op); a disagreement is named after what the monitor was watching (isolation: which entry relative to
+        the updated one; align: old or new entry; lattice: changed by a rejected write), not after the individual step."""
         n = self.ms.n
         nobs = 0
         for name, attr, model in (("sparse", self.sp, self.ms), ("dense", self.de, self.md)):
@@ -214,7 +231,7 @@ class Sys:
                     vm, vo = "align", "grow"
                     mech = ("%s_new_entry_not_default" % name) if (old_n is not None and i >= old_n) else "%s_old_%s_entry_changed" % (name, status)
                 else:
-                    vm, vo, mech = "answers", "get", "%s_%s_entry_wrong_value" % (name, status)
+                    vm, vo, mech = monitor, op, "%s_%s_entry_wrong_value" % (name, status)
                 self.viol(vm, vo, mech,
                           "%s storage: entry %d (%s) reads %s, the model (last value written, else default) says %s"
                           % (name, i, status, R.show(got), R.show(want)),
@@ -711,6 +728,8 @@ def _run_random(desc, ctx):
         S.build(rng)
         S.check_answers("answers", "after_create")
         S.check_align("create")
+        if desc["seed"] % 8 == 0:
+            S.probe_foreign_default(rng)
         for _ in range(desc["len"]):
             name = _random_step(S, rng)
             ctx.cls("op:" + name)
